@@ -143,22 +143,71 @@ def gen_case(rng, tier, g):
 
 
 class _FaultyTemp(object):
-    """Wraps the object returned by the real NamedTemporaryFile; raises
-    ENOSPC once `budget` bytes have been written through any wrapper."""
+    """Wraps the object returned by the real NamedTemporaryFile.  Once
+    `budget` bytes have reached the disk through any wrapper the disk is
+    full, and stays full until the fault plan is withdrawn: an unbuffered
+    file fails in write(), a buffered one accepts the write and fails when
+    the data have to leave the buffer (flush, seek, tell, read, close) - and
+    keeps the data, so that close() fails as well, as it does on a real
+    disk."""
 
-    def __init__(self, ctl, real):
+    def __init__(self, ctl, real, buffered):
         object.__setattr__(self, '_ctl', ctl)
         object.__setattr__(self, '_real', real)
+        object.__setattr__(self, '_buffered', buffered)
+        object.__setattr__(self, '_pending', [])
 
-    def write(self, b):
+    def _put(self, b):
         ctl = self._ctl
         if ctl.budget is not None:
             if ctl.budget < len(b):
-                ctl.budget = None       # one fault, then the disk has room
+                ctl.budget = 0          # full from now on
                 devices.CTX.fire('disk-full')
                 raise SimDiskFull()
             ctl.budget -= len(b)
         return self._real.write(b)
+
+    def _drain(self):
+        pending = self._pending
+        while pending:
+            self._put(pending[0])
+            del pending[0]
+
+    def write(self, b):
+        if self._buffered:
+            self._pending.append(bytes(b))
+            return len(b)
+        return self._put(b)
+
+    def flush(self):
+        self._drain()
+        return self._real.flush()
+
+    def seek(self, *a):
+        self._drain()
+        return self._real.seek(*a)
+
+    def tell(self):
+        self._drain()
+        return self._real.tell()
+
+    def read(self, *a):
+        self._drain()
+        return self._real.read(*a)
+
+    def readline(self, *a):
+        self._drain()
+        return self._real.readline(*a)
+
+    def readinto(self, b):
+        self._drain()
+        return self._real.readinto(b)
+
+    def close(self):
+        try:
+            self._drain()
+        finally:
+            self._real.close()
 
     def __getattr__(self, k):
         return getattr(self._real, k)
@@ -168,7 +217,11 @@ class _FaultyTemp(object):
         return self
 
     def __exit__(self, *a):
-        return self._real.__exit__(*a)
+        try:
+            self._drain()
+        finally:
+            r = self._real.__exit__(*a)
+        return r
 
     def __iter__(self):
         return iter(self._real)
@@ -180,10 +233,11 @@ class _TempCtl(object):
 
     def factory(self, *a, **kw):
         if self.budget is not None and self.budget <= 0:
-            self.budget = None
             devices.CTX.fire('disk-full-at-create')
             raise SimDiskFull()
-        return _FaultyTemp(self, tempfile.NamedTemporaryFile(*a, **kw))
+        buffered = kw.get('buffering', kw.get('bufsize', -1)) != 0
+        return _FaultyTemp(self, tempfile.NamedTemporaryFile(*a, **kw),
+                           buffered)
 
 
 def _listing(path):
